@@ -124,6 +124,82 @@ def show(t):
     return "?%s" % (t,)
 
 
+# ------------------------------------------------------------------ end trimmers that cut blanks only
+
+BLANK_PROBES = [0x00, 0x09, 0x0A, 0x0B, 0x0C, 0x0D, 0x1F, 0x20, 0x21, 0x41, 0x7E, 0x7F, 0x80, 0x85, 0x9F, 0xA0, 0x1680, 0x2003, 0x2028, 0x202F, 0x2FFF, 0x3000, 0x3001,
+                0xFEFF, 0x1F600]
+
+
+def _predicate_verdicts(prog, name):
+    """Concrete probes of a per-character predicate (closure or fn taking one char) -> {code point: bool}, or (None, reason)."""
+    from table import Table, TooComplex, Unknown, run_concrete, eval_desc, vdesc
+    pb = prog.body(name)
+    if pb is None or pb.loops() or pb.locals[0]["ty"] != "bool":
+        return None, "predicate %s not analysable" % name
+    cp = [i for i in range(1, pb.arg_count + 1) if pb.locals[i]["ty"].replace("&", "").strip() == "char"]
+    if len(cp) != 1:
+        return None, "predicate %s does not take one char" % name
+    try:
+        tb = Table(prog, pb, inline=1)
+        out = {}
+        for ch in BLANK_PROBES:
+            res, _ = run_concrete(tb, {"arg%d" % cp[0]: ch})
+            out[ch] = bool(eval_desc(vdesc(res), {"arg%d" % cp[0]: ch}))
+        return out, "ok"
+    except (TooComplex, Unknown) as e:
+        return None, "predicate %s cannot be evaluated (%s)" % (name, e)
+
+
+def end_trim(prog, t, depth=0):
+    """If term t is a call that returns its first argument with a run of characters removed at the end, (term of that argument,
+    {probe code point: is it removed?}); else None.  Recognised: str::trim_ascii_end, str::trim_end (std's documented classes),
+    str::trim_end_matches with a char constant or a per-character predicate (probed concretely), and a workspace helper whose
+    result is such a call on its own parameter."""
+    from table import CHAR_MODELS
+    if t[0] != "call":
+        return None
+    fn = t[1]
+    if fn == "core::str::trim_ascii_end":
+        return t[2][0], {c: CHAR_MODELS["is_ascii_whitespace"](c) for c in BLANK_PROBES}
+    if fn == "core::str::trim_end":
+        return t[2][0], {c: CHAR_MODELS["is_whitespace"](c) for c in BLANK_PROBES}
+    if fn == "core::str::trim_end_matches" and len(t[2]) == 2:
+        pat = t[2][1]
+        if pat[0] == "const" and pat[1] == "char":
+            k = pat[2] if isinstance(pat[2], int) else ord(pat[2])
+            return t[2][0], {c: c == k for c in BLANK_PROBES + [k]}
+        if pat[0] == "agg" and str(pat[1]).startswith("closure:") and not pat[2]:
+            v, _ = _predicate_verdicts(prog, pat[1][len("closure:"):])
+            return (t[2][0], v) if v is not None else None
+        return None
+    hb = prog.body(fn)
+    if hb is not None and depth < 2 and hb.crate.startswith("pasfmt") and not hb.loops() and hb.arg_count == 1 and len(t[2]) == 1:
+        rets = hb.return_blocks()
+        if len(rets) == 1:
+            rt = t_operand(hb, {"k": "copy", "place": {"l": 0, "p": []}}, 0, (), rets[0])
+            inner = end_trim(prog, rt, depth + 1)
+            if inner is not None and inner[0] == ("arg", 1):
+                return t[2][0], inner[1]
+    return None
+
+
+def blank_end_trim(prog, t):
+    """the trimmed argument if t removes only blank characters (<= U+0020, U+3000) at the end, else None.  (str::trim_end does
+    not qualify: Unicode White_Space contains U+0085, U+00A0, U+2000.. which are not blank here.)"""
+    r = end_trim(prog, t)
+    if r is None or any(v and c not in BLANK_CHARS for c, v in r[1].items()):
+        return None
+    return r[0]
+
+
+def ascii_blank_end_trim(prog, t):
+    """the trimmed argument if t removes at least spaces and tabs at the end (what C08 calls trailing blanks), else None"""
+    r = end_trim(prog, t)
+    if r is None or not (r[1].get(0x20) and r[1].get(0x09)):
+        return None
+    return r[0]
+
+
 # ------------------------------------------------------------------ linear expressions
 
 def lin_const(c):
@@ -224,8 +300,9 @@ class SliceEval:
                     a, e = self.lin(r[2][0]), self.lin(r[2][1])
                     return (lin_add(s[0], a), lin_add(s[0], e)) if a is not None and e is not None else None
                 return None
-            if fn in ("core::str::trim_ascii_end", "core::str::trim_end"):
-                s = self.slice(t[2][0])
+            trimmed = blank_end_trim(self.prog, t)
+            if trimmed is not None:
+                s = self.slice(trimmed)
                 if s is not None:
                     name = "T[%s]" % show(t)
                     self.trim_of[name] = s[1]
